@@ -164,7 +164,11 @@ def cases(rng, tier, shard, nshards):
                 t = float(tt)
             if np.isfinite(v2) and v2 > 0:
                 t2 = float(v2 * f)
+        if rng.random() < 0.03:
+            t = 0.0            # boundary: a cost of exactly 0 is not < 0, so no member is acceptable (all points); R2 >= 0 always is
         tl = [t2] + [float(10.0 ** rng.uniform(-4, 0)) for _ in range(int(rng.integers(0, 3)))]
+        if rng.random() < 0.03:
+            tl.append(0.0)
         rng.shuffle(tl)
         yield {'points': pts, 'family': meta['family'], 'layout': gen.pick_layout(rng, pts),
                'cost': cn, 'distance': dn, 'order': on, 't': t, 'min_points': int(rng.integers(0, n + 3)),
